@@ -60,4 +60,30 @@ CHECKS["C07"] = {
     "note": TRUSTED + "Not decided: the count over histories (Arc's count given the decided clauses); when GC runs.",
 }
 
+CHECKS["C08"] = {
+    "technique": "call-graph reachability with generic-argument tracking (track_removals::<C>), entry-point classification of the removal collector, dominator rules for the DespawnTracker guard and entity identity, must-pass-through poll rule on every run path, generic-argument facts of add_systems/after/in_set",
+    "text": "Decides that removal/despawn detectors are installed by both removal triggers for their own type, are persistent and not duplicated, that a DespawnTracker is never replaced and reports the entity it sits on exactly once, that the polled dispatch loops are exhaustive, and that polling happens after every run and in Last after auto-despawn.",
+    "note": TRUSTED + "Not decided: exactly-once over arbitrary histories between polls (RemovedComponents buffering and component drop on despawn are Bevy's contract).",
+}
+CHECKS["C09"] = {
+    "technique": "who-may-call rules over the resolved call graph (runner entered only from Command::apply and its replay; dispatch functions only queue), iterator-chain classification against the order table, dominance/reachability rule for the replay position, shared typestate rules of C02/C04/C12",
+    "text": "Decides that the crate adds nothing that reorders or runs out of band: in-line only, postponed only when busy and nested, replay after re-insertion through the runner, FIFO buffer, own commands after cleanup. The order itself is produced by Bevy's command queue and is not decided.",
+    "note": TRUSTED + "Not decided: the order relation over all pairs of runs of arbitrary trees (Bevy's in-line flush).",
+}
+CHECKS["C10"] = {
+    "technique": "construction-site / who-may-call enumeration from MIR aggregates and the call graph, trait-impl table (no Clone/Copy), field-access enumeration, path counting in Drop, effective visibility; compile-fail/compile-pass witnesses in the thorough tier",
+    "text": "Proves by construction that there is one payload per prepare(), one send per payload drop, that only the crate-private collector receives, that the collector drains completely and despawns recursively only found entities, and that setup never replaces the despawner. Thread interleavings are delegated to Arc and crossbeam.",
+    "note": TRUSTED + "Not decided: interleavings of drops with collection (Arc / crossbeam contracts).",
+}
+CHECKS["C11"] = {
+    "technique": "conjunction of MIR path rules (must-pass-through, path counting, who-writes enumeration), one per bookkeeping item; shared obligations of C02/C03/C04/C05",
+    "text": "Decides that every path restores the tree counter, the postponed queue, the pending-metadata lists (one claim per prepare), the reacting flags and the stored callback.",
+    "note": TRUSTED + "Not decided: state after a panic unwinds through a tree; user callbacks that ignore the cleanup.",
+}
+CHECKS["C13"] = {
+    "technique": "A4 variant arms + must-pass-through write-back rule in both run_with_cleanup functions, provenance of the written-back system, data-flow of the system argument from every registration entry point, trait-impl table",
+    "text": "Decides that an initialized system is always written back as Initialized with the same system value, that initialization happens only on the New arm, that every registration builds and owns its own system (never a type-keyed cache), that the stored callback is private and conserved by the runner.",
+    "note": TRUSTED + "Not decided: Bevy keeping Local state across run_unsafe calls.",
+}
+
 NOT_APPLICABLE = {}
